@@ -759,6 +759,10 @@ class TorControlProtocol(LineOnlyReceiver):
             (d, cmd, cmd_arg) = self.command
 
             if self._when_disconnected.already_fired(d):
+                # we're disconnected: this command has just been failed
+                # and nothing is in flight, so later commands fail too
+                self.command = None
+                self._maybe_issue_command()
                 return
 
             self.defer = d
